@@ -30,6 +30,13 @@ MANUAL = {
     0xC0B0: "TLS_ECCPWD_WITH_AES_128_GCM_SHA256", 0xC0B1: "TLS_ECCPWD_WITH_AES_256_GCM_SHA384",
     0xC0B2: "TLS_ECCPWD_WITH_AES_128_CCM_SHA256", 0xC0B3: "TLS_ECCPWD_WITH_AES_256_CCM_SHA384",
     0xC0AA: "TLS_PSK_DHE_WITH_AES_128_CCM_8", 0xC0AB: "TLS_PSK_DHE_WITH_AES_256_CCM_8",
+    # registrations newer than both libraries' tables (added after S-C14-r23 showed that the copy lacked them): RFC 8998, RFC 9150,
+    # RFC 9189, RFC 9367, draft-irtf-cfrg-aegis-aead
+    0x00C6: "TLS_SM4_GCM_SM3", 0x00C7: "TLS_SM4_CCM_SM3", 0xC0B4: "TLS_SHA256_SHA256", 0xC0B5: "TLS_SHA384_SHA384",
+    0xC100: "TLS_GOSTR341112_256_WITH_KUZNYECHIK_CTR_OMAC", 0xC101: "TLS_GOSTR341112_256_WITH_MAGMA_CTR_OMAC",
+    0xC102: "TLS_GOSTR341112_256_WITH_28147_CNT_IMIT", 0xC103: "TLS_GOSTR341112_256_WITH_KUZNYECHIK_MGM_L",
+    0xC104: "TLS_GOSTR341112_256_WITH_MAGMA_MGM_L", 0xC105: "TLS_GOSTR341112_256_WITH_KUZNYECHIK_MGM_S",
+    0xC106: "TLS_GOSTR341112_256_WITH_MAGMA_MGM_S", 0x1306: "TLS_AEGIS_256_SHA512", 0x1307: "TLS_AEGIS_128L_SHA256",
 }
 ALIASES = {0xC0AA: ["TLS_DHE_PSK_WITH_AES_128_CCM_8"], 0xC0AB: ["TLS_DHE_PSK_WITH_AES_256_CCM_8"]}
 out = {}
